@@ -42,6 +42,10 @@ def cases(ctx):
                     seq.append(("rot", rng.uniform(-7, 7), False))
                 else:
                     seq.append(("rot", rng.uniform(-400, 400), True))
+        if i % 5 == 4:
+            s = ("S", G.coincident_curve(rng))
+            yield {"shape": s, "seq": seq, "num": "float", "curved": True}
+            continue
         yield {"shape": s, "seq": seq, "num": "frac" if i % 3 else "float"}
 
 
@@ -103,12 +107,15 @@ def check(ctx, case):
         a_old, a_new = O.moment_shape(cur, 0, 0), I.num(I.IntegrateShape.area(S))
         if not U.num_close(a_new, _det(tr) * a_old, 1e-9, 1e-9):
             fails.append(Fail(kind="O", what="area is not |det T| times the old area", impl=a_new, expected=_det(tr) * a_old, tr=repr(tr)))
-        for (a, b) in ((1, 0), (0, 1), (1, 1), (2, 0)):
+        for (a, b) in (((1, 0), (0, 1), (1, 1), (2, 0)) if not case.get("curved") else ()):
             m = I.num(I.IntegrateShape.polynomial(S, a, b))
             mo = O.moment_shape(got, a, b)
             mw = O.moment_shape(want, a, b)
             if not U.num_close(m, mw, 1e-8, 1e-8):
                 fails.append(Fail(kind="O", what="moment x^%d y^%d does not transform with the map" % (a, b), impl=m, expected=mw))
+        if case.get("curved"):
+            cur = got
+            continue            # membership / moments of curved shapes: control points and area are checked above
         pts = O.slab_samples(O.shape_jordans(cur))[:: 3]
         for p in pts:
             r0 = O.region(cur, p)
